@@ -200,6 +200,12 @@ def run(chk):
 def replay(chk, path):
     rp = json.loads(open(path).read())
     case = rp['case']
+    if case.get('kind') == 'scale':            # a probe compared with the dense matrix directly: rebuilt from its seed
+        o = chk.run_impl('C17', {'cases': [case]})['cases'][0]
+        log('impl now :', json.dumps(o)[:1500])
+        if o.get('n_mismatches') or 'crash' in o:
+            chk.report_violation(rp.get('signature', 'C17:replay'), {'case': case, 'impl': o}, what='replayed probe still fails')
+        return
     t, o, f = evaluate(chk, [case], tag='replay')
     chk.note_case(case)
     chk.note_case({'replay': path})
